@@ -52,6 +52,8 @@ pub fn cases(tier: &str) -> Vec<Value> {
         json!({"rcode": 0, "an": [], "ns": [2, 3], "ar": [4, 0], "compress": true, "opt": true}),
         json!({"rcode": 23, "an": [], "ns": [], "ar": [], "compress": true, "opt": true}),
         json!({"rcode": 0, "an": [1, 8], "ns": [3, 6], "ar": [2, 7], "compress": true, "opt": true}),
+        json!({"rcode": 0, "an": [0], "ns": [3], "ar": [2, 7, 4], "compress": true, "opt": true, "opt_pos": "first"}),
+        json!({"rcode": 0, "an": [0], "ns": [3], "ar": [4, 2, 7], "compress": true, "opt": true, "opt_pos": "middle"}),
     ];
     // (a) every query shape x fixed replies
     let nrep = if thorough { fixed_replies.len() } else { 2 };
@@ -101,6 +103,15 @@ pub fn cases(tier: &str) -> Vec<Value> {
                                         _ => (o1, o2, l),
                                     };
                                     out.push(json!({"engine":"enet","check":"c03","q":q,"r":{"rcode":rc,"an":an,"ns":ns,"ar":ar,"compress":compress,"opt":opt}}));
+                                    // RFC 6891 lets the OPT record sit anywhere in the additional section
+                                    if opt && !ar.is_empty() {
+                                        for pos in ["first", "middle"] {
+                                            if pos == "middle" && ar.len() < 2 {
+                                                continue;
+                                            }
+                                            out.push(json!({"engine":"enet","check":"c03","q":q,"r":{"rcode":rc,"an":an,"ns":ns,"ar":ar,"compress":compress,"opt":opt,"opt_pos":pos}}));
+                                        }
+                                    }
                                 }
                             }
                         }
@@ -161,7 +172,12 @@ pub fn build_reply(r: &Value, oq: &Msg) -> Msg {
     let rcode = r["rcode"].as_u64().unwrap_or(0) as u16;
     let mut additional = pick("ar");
     if r["opt"].as_bool().unwrap_or(false) {
-        additional.push(rd::opt_rr(1232, (rcode >> 4) as u8, 0, false, vec![]));
+        let o = rd::opt_rr(1232, (rcode >> 4) as u8, 0, false, vec![]);
+        match r["opt_pos"].as_str() {
+            Some("first") => additional.insert(0, o),
+            Some("middle") if !additional.is_empty() => additional.insert(1, o),
+            _ => additional.push(o),
+        }
     }
     Msg { id: oq.id, flags: 0x8180 | (rcode & 0xf), question: oq.question.clone(), answer: pick("an"), authority: pick("ns"), additional }
 }
@@ -332,7 +348,7 @@ pub fn run(tier: &str, replay: Option<Value>) -> ! {
     let agg = netrun::run_sharded(&mut rep, "C03", tier, cases, 16);
     rep.cov("evaluations", agg.executions);
     rep.cov("distinct_nontrivial", agg.classes.len() as u64);
-    rep.cov("rule", "one fault-free exchange per execution on a fresh in-process DnsService ([::1] listener): (a) every query shape (3 names x 5 types x 2 classes x 5 EDNS x 3 flag sets x UDP/TCP) x fixed replies; (b) fixed queries x every reply shape (rcodes x one section over all record lists of length <=2 from a 9-record alphabet (incl. records whose names share a suffix first written inside an earlier record's rdata), the other sections in {[],[1]} x compression x OPT). distinct = (rcode, section sizes, transport) classes");
+    rep.cov("rule", "one fault-free exchange per execution on a fresh in-process DnsService ([::1] listener): (a) every query shape (3 names x 5 types x 2 classes x 5 EDNS x 3 flag sets x UDP/TCP) x fixed replies; (b) fixed queries x every reply shape (rcodes x one section over all record lists of length <=2 from a 9-record alphabet (incl. records whose names share a suffix first written inside an earlier record's rdata), the other sections in {[],[1]} x compression x OPT absent / last / first / in the middle of the additional section). distinct = (rcode, section sizes, transport) classes");
     rep.cov("exhaustive", true);
     rep.cov("outcome_classes", serde_json::json!(agg.classes));
     rep.cov("workers_in_private_netns", agg.isolated_workers as u64);
